@@ -138,6 +138,31 @@ fn impulses<T: Flt>(acc: &mut Acc, tier: Tier, len: usize, window: WindowFunctio
                     }
                 }
             }
+            // the last legal start index: a slice that ends one sample after the window
+            // (every kernel must accept exactly the indices the scalar one accepts)
+            for &start in &starts {
+                let total = start + len + 1;
+                let wave: Vec<T> = (0..total).map(|i| T::from64(if i == start + len / 2 { 1.0 } else { 0.0 })).collect();
+                let vals: Vec<Option<T>> = kernels
+                    .iter()
+                    .map(|(_, k)| std::panic::catch_unwind(std::panic::AssertUnwindSafe(|| k.get_sinc_interpolated(&wave, start, sub))).ok())
+                    .collect();
+                acc.evals += 1;
+                acc.nontrivial += 1;
+                for (i, (name, _)) in kernels.iter().enumerate().skip(1) {
+                    let same = match (&vals[i], &vals[0]) {
+                        (Some(a), Some(b)) => a == b,
+                        (None, None) => true,
+                        _ => false,
+                    };
+                    if !same {
+                        fail(acc, &format!("last-legal-index:{}!=scalar", name),
+                            format!("{} len {} os {} sub {}: start index {} in a slice of {} samples (the last index the scalar kernel accepts): {} {}, scalar {}", T::NAME, len, os, sub, start, total, name,
+                                if vals[i].is_some() { "returns a value" } else { "panics" }, if vals[0].is_some() { "returns a value" } else { "panics" }),
+                            format!("impulse T={} len={} os={} window={}", T::NAME, len, os, window_name(window)));
+                    }
+                }
+            }
             acc.outcomes.insert(format!("{}:len{}:os{}", T::NAME, len, os));
             // rounding half: hard waveforms
             let total = 8 + len + 9;
